@@ -54,11 +54,15 @@ type treeDecl struct {
 // gives nodes an alias; optMask marks nodes (bit 0 = parser) subcommands-optional;
 // clash = 0 none, else node (clash-1)/2 uses its parent's (even) or grandparent's (odd) flag letter.
 // sameName: 0 none, else the last node takes the name of node 0 when they are not siblings.
-func buildTree(par []int, aliasMask, optMask, clash int, sameName bool, exec bool, reqNode, posNode int, hiddenMask int, lateGroup bool) *treeDecl {
+func buildTree(par []int, aliasMask, optMask, clash int, sameName bool, exec bool, reqNode, posNode int, hiddenMask int, lateGroup bool, envInt bool) *treeDecl {
 	n := len(par)
 	letters := "abcd"
 	top := &decl.Cmd{Name: "app", Opts: []*decl.Opt{{Field: "P", Short: "p", Long: "pflag", Type: decl.TBools}}}
 	top.SubOptional = optMask&1 != 0
+	if envInt {
+		// an int option whose value may come from the environment
+		top.Opts = append(top.Opts, &decl.Opt{Field: "E", Long: "envint", Type: decl.TInt, Env: "C09_ENV"})
+	}
 	cmds := make([]*decl.Cmd, n)
 	flagLetter := make([]string, n)
 	for i := 0; i < n; i++ {
@@ -191,7 +195,7 @@ func init() {
 			if len(cache) > 200 {
 				cache = map[string]*treeDecl{}
 			}
-			td = buildTree(par, am, om, cl, sn, exec, rq, ps, hm, c08LateGroup)
+			td = buildTree(par, am, om, cl, sn, exec, rq, ps, hm, c08LateGroup, false)
 			cache[key] = td
 		}
 		return td, key, td != nil
